@@ -51,6 +51,8 @@ prop("C04", [
     S(PARSE, "^TestC04Regress$", kind="plain"),
     S(PARSE, "^TestC04Types$", kind="plain"),
     S(PARSE, "^TestC04$", q=30000, t=300000, shards=16),
+    S(PARSE, "^TestC04Concurrent$", kind="plain", q=150, t=5000),
+    S(PARSE, "^TestC04Concurrent$", kind="plain", race=True, q=60, t=1500),
 ], ["milliseconds are written with three digits, as the kernel does",
     "malformed cases are only those that are malformed under any reading of the header grammar",
     "record type names are the library's own String() names (name<->number consistency is C20)"],
@@ -139,10 +141,11 @@ prop("C08", [
 prop("C16", [
     S(CLIENT, "^TestC16Regress$", kind="plain"),
     S(CLIENT, "^TestC16Constants$", kind="plain"),
+    S(CLIENT, "^TestC16FieldValues$", kind="plain"),
     S(CLIENT, "^TestC16$", q=20000, t=500000, shards=16),
 ], ["struct audit_status field offsets are written from the kernel header by hand; mask/feature bits and message types come from the header snapshot",
     "fields only partly covered by an odd-length buffer are not asserted"],
-   nontrivial_classes=["set-nonzero", "set-after-unacknowledged-set", "get", "get-repeated-on-one-client", "wire-too-short", "wire-decoded"] + ["set-" + s for s in
+   nontrivial_classes=["set-nonzero", "set-after-unacknowledged-set", "get", "get-repeated-on-one-client", "field-value-sweep", "set-long-run-without-waiting", "wire-too-short", "wire-decoded"] + ["set-" + s for s in
                        ["SetPID", "SetRateLimit", "SetBacklogLimit", "SetEnabled", "SetImmutable", "SetFailure", "SetBacklogWaitTime"]])
 
 prop("C17", [
@@ -184,11 +187,12 @@ prop("C09", [
 prop("C15", [
     S(COAL, "^TestC15Regress$", kind="plain"),
     S(COAL, "^TestC15$", q=3000, t=50000, shards=16),
+    S(COAL, "^TestC15CacheChurn$", kind="plain", timeout_t=3000),
     S(COAL, "^TestC15Concurrent$", kind="plain", race=True, q=300, t=20000, timeout_t=3000),
     S(COAL, "^TestC15Concurrent$", kind="plain", q=300, t=20000, timeout_t=3000),
 ], ["events are compared as deep copies with warnings by text; nil and empty containers are not distinguished",
     "ResolveIDs is meant to change the event it is given; that event's snapshot is refreshed, all others must stay equal"],
-   nontrivial_classes=["history-with-repeated-coalescing-of-stateful-group", "history-with-2-live-events", "concurrent-round"])
+   nontrivial_classes=["history-with-repeated-coalescing-of-stateful-group", "history-with-2-live-events", "concurrent-round", "cache-churn"])
 
 TABLES = "props/tables"
 
